@@ -602,13 +602,51 @@ def gen_apg(rng, tier, cs):
                ('apg', n, f.coq, g.coq, gamma, N, tuple(x0)) if N > 0 else None)
 
 
+def gen_pdacc(rng, tier, cs):
+    from odl.solvers.nonsmooth.primal_dual_hybrid_gradient import pdhg
+    for k in range(12 if tier == 'quick' else 100):
+        n, m = _sizes(rng, tier)
+        M = _mat(rng, m, n)
+        f, g = _fk(rng, n, 'prox'), _fk(rng, m, 'cc')
+        tau, sigma = _dy(rng), _dy(rng)
+        which = rng.choice(['gamma_primal', 'gamma_dual'])
+        gam = rng.choice([0.5, 1.0, 2.0, 0.0])
+        x0 = _vec(rng, n)
+        N = min(_niter(rng, tier, k), 10)
+        L = _mop(M, n)
+        t1, c1 = _rec()
+        x = L.domain.element(x0)
+        pdhg(x, f.build(L.domain), g.build(L.range), L, N, tau, sigma, callback=c1, **{which: gam})
+        taus, sigmas, thetas = [], [], []
+        t_, s_ = float(tau), float(sigma)
+        for _ in range(N):      # the scalar recursion of the source, replayed
+            taus.append(t_)
+            sigmas.append(s_)
+            if which == 'gamma_primal':
+                th = float(1 / np.sqrt(1 + 2 * gam * t_))
+                t_ *= th
+                s_ /= th
+            else:
+                th = float(1 / np.sqrt(1 + 2 * gam * s_))
+                t_ /= th
+                s_ *= th
+            thetas.append(th)
+        cs.add('{| kw_nc := %d; kw_M := %s; kw_f := %s; kw_g := %s; kw_tau := %s; kw_sigma := %s; kw_theta := %s; '
+               'kw_x := %s; kw_n := %d; kw_tr := %s |}'
+               % (n, C.qss(M), f.coq, g.coq, C.qs(taus), C.qs(sigmas), C.qs(thetas), C.qs(x0), N, C.qss(t1)),
+               {'solver': 'pdhg (accelerated)', 'M': M, 'f': f.desc, 'g': g.desc, 'tau': tau, 'sigma': sigma,
+                which: gam, 'x0': x0, 'niter': N},
+               ('pdacc', n, m, f.coq, g.coq, tau, sigma, which, gam, N, tuple(x0)) if N > 0 else None)
+
+
 GENS = [('fk', 'check_fk', 'case_fk', gen_fk), ('admm', 'check_admm', 'case_admm', gen_admm),
         ('adupdates', 'check_adup', 'case_adup', gen_adup), ('doubleprox_dc', 'check_dpdc', 'case_dpdc', gen_dpdc),
         ('pdhg', 'check_pdhg', 'case_pdhg', gen_pdhg), ('landweber', 'check_lw', 'case_lw', gen_lw),
         ('kaczmarz', 'check_kz', 'case_kz', gen_kz), ('proximal_gradient', 'check_pg', 'case_pg', gen_pg),
         ('mlem', 'check_em', 'case_em', gen_em), ('steepest_descent', 'check_sd', 'case_sd', gen_sd),
         ('douglas_rachford_pd', 'check_dr', 'case_dr', gen_dr), ('dca', 'check_dca', 'case_dca', gen_dca),
-        ('accelerated_proximal_gradient', 'check_apg', 'case_apg', gen_apg)]
+        ('accelerated_proximal_gradient', 'check_apg', 'case_apg', gen_apg),
+        ('pdhg_accelerated', 'check_pdacc', 'case_pdacc', gen_pdacc)]
 
 
 def correspondence(rng, tier):
